@@ -138,7 +138,7 @@ func runContained(engine string, seed uint64, tier string, ncases int, name func
 		// index of the last line that closes a case
 		lastEnd := -1
 		for i, l := range lines {
-			if (strings.HasPrefix(l, "sfin ") || strings.HasPrefix(l, "end ")) {
+			if (strings.HasPrefix(l, "sfin ") || strings.HasPrefix(l, "end ") || strings.HasPrefix(l, "mend ")) {
 				lastEnd = i
 			}
 		}
@@ -159,7 +159,7 @@ func runContained(engine string, seed uint64, tier string, ncases int, name func
 		var partial []string
 		for i := lastEnd + 1; i < len(lines); i++ {
 			l := lines[i]
-			if (strings.HasPrefix(l, "sbegin ") || strings.HasPrefix(l, "begin ")) {
+			if (strings.HasPrefix(l, "sbegin ") || strings.HasPrefix(l, "begin ") || strings.HasPrefix(l, "mbegin ")) {
 				f := strings.Fields(l)
 				if len(f) > 1 {
 					if n, err := strconv.Atoi(f[1]); err == nil {
